@@ -1,5 +1,6 @@
 CONSTANTS
   FixLostTail = FALSE
+  MismatchResync = TRUE
 SPECIFICATION TraceSpec
 INVARIANTS PositionalEquality NoHoles AckImpliesAppended NoSilentSkip
 PROPERTIES TAckOnlyAppended
